@@ -51,8 +51,18 @@ def run_case(ctx, h, tmp):
     m = models.gen_model(rng, sp, nobj=rng.randint(2, 8), values='safe' if fmt == 'json' else 'boundary')
     use_uuid, sd = rng.random() < .3, rng.random() < .4
     opts = ({XMIOptions.SERIALIZE_DEFAULT_VALUES: sd} if fmt == 'xmi' else {JsonOptions.SERIALIZE_DEFAULT_VALUES: sd})
+    own_encoder = fmt == 'json' and rng.random() < .5
+    if own_encoder:
+        import json as _json
+
+        class Sorted(_json.JSONEncoder):            # an encoder of the caller's: keys in sorted order
+            def __init__(self, **kw):
+                kw['sort_keys'] = True
+                super().__init__(**kw)
+        opts[JsonOptions.ENCODER] = Sorted
+        ctx.count('json/own-encoder')
     res, path = resource_for(m, tmp, fmt, use_uuid)
-    label = f'{fmt} uuid={int(use_uuid)} defaults={int(sd)}'
+    label = f'{fmt} uuid={int(use_uuid)} defaults={int(sd)}' + (' encoder=own' if own_encoder else '')
     ctx.count('format/' + fmt)
     # ---- purity and determinism --------------------------------------------------------------------------
     before = observable(m)
